@@ -40,7 +40,7 @@ def build_request(p, cons):
     return C10.build_request(p, cons)
 
 
-def wellformed(ex, o, data, method, res, wit):
+def wellformed(ex, o, data, method, res, wit, head_ascii=True):
     st_line, headers, body, problems = split_response(data)
     bad = [('malformed:' + p, True) for p in problems]
     table = load_status_table()
@@ -65,7 +65,8 @@ def wellformed(ex, o, data, method, res, wit):
         if len(names.get(f, [])) > 1: bad.append(('framing-header-%s-appears-%d-times' % (f.decode(), len(names[f])), True))
     blen = pieces_len(body)
     if method in ('HEAD', 'OPTIONS'):
-        bad.append(('body-bytes-in-response-to-%s' % method, b_not(bv_eq(blen, 0, LW))))
+        # (a request whose head is not valid UTF-8 is answered 400 before its method is known: only parsed requests count)
+        bad.append(('body-bytes-in-response-to-%s' % method, b_and(head_ascii, b_not(bv_eq(blen, 0, LW)))))
     elif b'content-length' in names and len(names[b'content-length']) == 1:
         cl = pieces_str(names[b'content-length'][0])
         ok, v = parse_int(cl, 'u64')
@@ -88,6 +89,9 @@ def case(prog, params):
     if params['kind'] == 'readfail': stream['read_fail'] = True
     if params['kind'] == 'short-write': stream = {'write_mode': 'arbitrary', 'flush_mode': 'ok'}
     method = params.get('method', 'GET')
+    head_ascii = True
+    for k_ in ('v', 'raw', 't', 'r'):
+        if k_ in sy: head_ascii = b_and(head_ascii, sy[k_].all_bytes(lambda b: bv_ult(b, 0x80, 8)))
 
     def term(o):
         k = outcome_kind(o.outcome); res['kinds'][k] = res['kinds'].get(k, 0) + 1
@@ -124,7 +128,7 @@ def case(prog, params):
             return
         for data, _ in written_responses(o):
             res['responses'] += 1
-            wellformed(ex, o, data, method, res, wit)
+            wellformed(ex, o, data, method, res, wit, head_ascii=head_ascii)
     if params['kind'] == 'short-write' and params['entry'] == 'process_request':
         st = State(); st.pc = list(cons)
         st.world['env'] = dict(CORS_ENV_ALLOW_ALL); st.world['env'][b'RWS_CONFIG_REQUEST_ALLOCATION_SIZE_IN_BYTES'] = S(str(reqb.cap))
